@@ -195,7 +195,8 @@ func plans(id, tier string) (Plan, bool) {
 			}
 			jobs = append(jobs, Job{Pkg: pkgBackend, Harness: "c19_pool", Instr: "backend", Params: fmt.Sprintf("files=%d;tasks=%d;headers=%s;policy=preemption;budget=%d", cf.files, cf.tasks, h, pick(2, 3)), Shards: pick(2, 8)})
 		}
-		jobs = append(jobs, Job{Pkg: pkgExtCLI, Harness: "c19_cli", Shards: pick(8, 16), MaxProcs: 2})
+		jobs = append(jobs, Job{Pkg: pkgExtCLI, Harness: "c19_cli", Shards: pick(9, 16), MaxProcs: 2})
+		jobs = append(jobs, Job{Pkg: pkgResults, Harness: "c19_jsontext", Shards: pick(4, 16)})
 		return Plan{Level: "model_checking", Jobs: jobs}, true
 	case "C20":
 		return Plan{Level: "model_checking", Jobs: []Job{
